@@ -14,6 +14,8 @@ from dataclasses import dataclass, field
 from typing import Any, Iterator
 
 from .alias import propagate_new_aliases  # noqa: E402
+from .loops import normalise_counting_loops  # noqa: E402
+from .simplify import simplify_after_folding  # noqa: E402
 from .inline import fold_new_helpers, load_known, load_known_locals  # noqa: E402
 
 LIB_FILES = ('bubus/service.py', 'bubus/models.py', 'bubus/helpers.py', 'bubus/logging.py', 'bubus/__init__.py')
@@ -292,7 +294,9 @@ class Program:
                 raise AnchorError(f'{rel} does not parse: {e}')
             tree = normalise_syntax(tree)
             self.fold_log.extend(fold_new_helpers(tree, rel, self._known))
+            self.fold_log.extend(simplify_after_folding(tree, rel, self._known_locals))
             self.fold_log.extend(propagate_new_aliases(tree, rel, self._known_locals))
+            self.fold_log.extend(normalise_counting_loops(tree, rel))
             set_parents(tree)
             mi = ModuleInfo(rel, src, tree)
             self.modules[rel] = mi
